@@ -46,10 +46,29 @@ package defaults
 //@
 //@ func (Rules).Errors
 //@   property C19
+//@   option summary callers use this contract, not the body
 //@   -- a value is accepted exactly when it meets every configured minimum
 //@   ensures policy_exact: (result == nil) <=> meets_policy(r, toValidate)
+//@   ensures nil_iff_empty: (result == nil) <=> (len(result) == 0)
 //@   ensures no_panic: !panics
 //@
 //@ func (Rules).IsValid
 //@   property C19
 //@   ensures is_valid_exact: result <=> meets_policy(r, toValidate)
+//@
+//@ spec rule_ok(h, k) := meets_policy(elem(h.Ruleset, k), mapget(h.Values, elem(h.Ruleset, k).FieldName))
+//@ spec confirm_ok(h, j) := mapget(h.Values, elem(h.ConfirmFields, j)) == "" ||
+//@        (mapget(h.Values, elem(h.ConfirmFields, j + 1)) != "" && mapget(h.Values, elem(h.ConfirmFields, j)) == mapget(h.Values, elem(h.ConfirmFields, j + 1)))
+//@
+//@ func (HTTPFormValidator).Validate
+//@   property C19
+//@   -- the submitted values pass exactly when every rule of the page accepts its field and every
+//@   -- confirmation field repeats its main field
+//@   invariant loop#1 rules_so_far: rangeindex >= -1 && rangeindex < len(h.Ruleset) &&
+//@       ((len(errList) == 0) <=> (forall k int :: (0 <= k && k <= rangeindex) ==> rule_ok(h, k)))
+//@   invariant loop#2 confirms_so_far: i >= 0 && i % 2 == 0 && len(h.ConfirmFields) % 2 == 0 && (i == 0 || i <= len(h.ConfirmFields)) &&
+//@       ((len(errList) == 0) <=> ((forall k int :: (0 <= k && k < len(h.Ruleset)) ==> rule_ok(h, k)) &&
+//@                                 (forall j int :: (0 <= j && j < i && j % 2 == 0) ==> confirm_ok(h, j))))
+//@   ensures validate_exact: !panics ==> ((len(result) == 0) <=>
+//@       ((forall k int :: (0 <= k && k < len(h.Ruleset)) ==> rule_ok(h, k)) &&
+//@        (forall j int :: (0 <= j && j < len(h.ConfirmFields) - 1 && j % 2 == 0) ==> confirm_ok(h, j))))
